@@ -1,5 +1,5 @@
-\* quick: asl, every template, <= 2 occurrences, thinned placements
-CONSTANTS Fixed = {} Prog = "asl" MaxOcc = 2 Alphabet = "all" Thin = 1
+\* quick: asl, every template, <= 2 occurrences, argv + 2 rotating placements per sequence
+CONSTANTS Fixed = {} Prog = "asl" MaxOcc = 2 Alphabet = "all" Thin = 2
 SPECIFICATION SpecMC
 INVARIANTS ScanIsFold DeviationsAreNamed PlaceNeverMatters EnvBeforeArgv ErrorIsFinal Emit
 CHECK_DEADLOCK FALSE
